@@ -122,6 +122,12 @@ static const char* MODULE_CLAUSES[][2] = {
     {"math", "or math.mean(0, filesize) > 200.0"},
     {"hash", "and hash.md5(0, filesize) != \"00\""},
     {"hash", "or hash.crc32(0, filesize) == 0"},
+    // digests of one range through several algorithms, spread over different rules: the per-scan digest
+    // cache is shared by all rules of a scan, each value must still be its own algorithm's
+    {"hash", "and hash.sha256(0, filesize) matches /^[0-9a-f]{64}$/"},
+    {"hash", "and hash.sha1(0, filesize) matches /^[0-9a-f]{40}$/"},
+    {"hash", "and hash.md5(0, filesize) matches /^[0-9a-f]{32}$/"},
+    {"hash", "and hash.checksum32(0, filesize) >= 0"},
     {"string", "and string.length(\"abc\") == 3"},
     {"time", "and time.now() > 0"},
     {"tests", "and tests.constants.one == 1"},
